@@ -111,6 +111,9 @@ theorem C01_read_empty_record {F} (env : Env F) (strict : Bool) (seps : List Byt
 /-- the source as it is now: `CheckRemainingInput` skips comments (regenerated on every run) -/
 theorem C01_source_skips_comments_after_values : Generated.rwLexCfg.criSkipsComments = true := by decide
 
+/-- the source as it is now: the aggregate element loops skip token separators (regenerated on every run) -/
+theorem C01_source_skips_comments_in_aggregates : Generated.rwCfg.aggrSkipsComments = true := by decide
+
 /-- **composition**: if `STEPattribute::STEPread` reads each parameter's token to its value wherever it stands
     (`ParamOK`), then `SDAI_Application_instance::STEPread` reads the whole record `( p₁ , … , pₙ )` — with any layout
     of blanks and comments before and after every parameter — to exactly those values, with severity NULL, and rests
@@ -124,7 +127,8 @@ theorem C01_read_record_of_params {F} (env : Env F) (strict : Bool) (ps : List (
 /-- the parameter kinds for which `ParamOK` is proved: `$` for an OPTIONAL attribute of any type, `*` for a derived
     attribute, an INTEGER token of the grammar (optional sign, digits) whose value fits `long` and is not the in-band
     null `LONG_MAX`, an entity reference `#digits` (forward or backward) to an instance the manager holds and whose type
-    conforms to the attribute's entity type — each with any layout before and after -/
+    conforms to the attribute's entity type, an aggregate (LIST/SET/BAG/ARRAY) of INTEGER with any number of elements
+    (including none) and any layout around every element — each with any layout before and after -/
 inductive Covered {F} (env : Env F) : Param F → Prop where
   | dollar (a : AttrD) (hopt : a.optional = true) (hder : a.derived = false) (hred : a.redefining = false)
       (before after : List Byte) (hb : Seps before) (ha : Seps after) :
@@ -143,13 +147,17 @@ inductive Covered {F} (env : Env F) : Param F → Prop where
       (before after : List Byte) (hb : Seps before) (ha : Seps after) :
       Covered env { a := a, v := .one (.atom (.ref ((digitsVal ds 0 : Nat) : Int))), tok := 35 :: ds,
                     before := before, after := after }
+  | aggrInt (a : AttrD) (hty : a.ty = .aggr .integer) (hder : a.derived = false) (hred : a.redefining = false)
+      (es : List ElemP) (inner : List Byte) (hok : ∀ e ∈ es, ElemOK e) (hin : Seps inner)
+      (before after : List Byte) (hb : Seps before) (ha : Seps after) :
+      Covered env { a := a, v := .aggr (es.map elemVal), tok := aggrText es inner, before := before, after := after }
 
 /-- **read (render p ℓ) = p for records over the covered kinds** (`_partial`: REAL/NUMBER/STRING/BINARY/ENUMERATION/
-    BOOLEAN/LOGICAL tokens, aggregates, selects are *not* covered by this theorem — for them `ParamOK` is a
+    BOOLEAN/LOGICAL tokens, aggregates of other element types, selects are *not* covered by this theorem — for them `ParamOK` is a
     hypothesis of `C01_read_record_of_params`; they are tied by correspondence only).  Every dictionary, every reader
-    configuration in which `CheckRemainingInput` skips comments, every layout, any number of parameters. -/
+    configuration in which `CheckRemainingInput` and the aggregate element loops skip comments, every layout, any number of parameters. -/
 theorem C01_read_record_partial {F} (env : Env F) (strict : Bool) (hcfg : env.lex.criSkipsComments = true)
-    (ps : List (Param F)) (hne : ps ≠ []) (hc : ∀ p ∈ ps, Covered env p) (l : List Byte) (sk : Bool) (rest : List Byte) :
+    (hagg : env.cfg.aggrSkipsComments = true) (ps : List (Param F)) (hne : ps ≠ []) (hc : ∀ p ∈ ps, Covered env p) (l : List Byte) (sk : Bool) (rest : List Byte) :
     ∃ sk', instSTEPread env strict (ps.map (·.a)) (G l (40 :: (renderParams ps ++ rest)) sk) =
       .ok ⟨.null, ps.map (·.v), G ((40 :: renderParams ps).reverse ++ l) rest sk'⟩ := by
   apply instSTEPread_params env strict ps hne
@@ -161,6 +169,8 @@ theorem C01_read_record_partial {F} (env : Env F) (strict : Bool) (hcfg : env.le
     exact ParamOK.integer env strict hcfg a hty hder hred tok htok hlo hhi before after hb ha
   | ref a tg hty hder hred ds hne hds hhi hfound before after hb ha =>
     exact ParamOK.ref env strict hcfg a tg hty hder hred ds hne hds hhi hfound before after hb ha
+  | aggrInt a hty hder hred es inner hok hin before after hb ha =>
+    exact ParamOK.aggrInt env strict hcfg hagg a hty hder hred es inner hok hin before after hb ha
 
 /-- the hypotheses are satisfiable: `( /* c */ -17 /**/ , $ )` for (INTEGER, OPTIONAL REAL) -/
 def exI : AttrD := { name := "i", ty := .one .integer, optional := false }
@@ -274,11 +284,11 @@ theorem paramsOf_spec {F} (env : Env F) (ops : FloatOps F) (cfg : RWCfg) (d : Di
     list of a record is read back by `SDAI_Application_instance::STEPread` to exactly the stored values with severity
     NULL, wherever the record stands in a file; hence writing again reproduces the same bytes. -/
 theorem C01_record_write_read_partial {F} (env : Env F) (strict : Bool) (hcfg : env.lex.criSkipsComments = true)
-    (cfg : RWCfg) (as : List AttrD) (vs : List (MVal F)) (h : StorableRec as vs) (l : List Byte) (sk : Bool) (rest : List Byte) :
+    (hagg : env.cfg.aggrSkipsComments = true) (cfg : RWCfg) (as : List AttrD) (vs : List (MVal F)) (h : StorableRec as vs) (l : List Byte) (sk : Bool) (rest : List Byte) :
     ∃ s', instSTEPread env strict as
         (G l (40 :: (writeAttrsSimple env.ops cfg env.dict 0 as vs ++ 41 :: rest)) sk) = .ok ⟨.null, vs, s'⟩ := by
   obtain ⟨hne, hma, hmv, hcov, _, h0⟩ := paramsOf_spec env env.ops cfg env.dict as vs h
-  obtain ⟨sk', hr⟩ := C01_read_record_partial env strict hcfg (paramsOf env.ops cfg env.dict as vs) hne hcov l sk rest
+  obtain ⟨sk', hr⟩ := C01_read_record_partial env strict hcfg hagg (paramsOf env.ops cfg env.dict as vs) hne hcov l sk rest
   rw [hma, hmv] at hr
   have e : writeAttrsSimple env.ops cfg env.dict 0 as vs ++ 41 :: rest =
       renderParams (paramsOf env.ops cfg env.dict as vs) ++ rest := by
